@@ -20,9 +20,10 @@ suite_ok = "FAILED" not in out and "error" not in out and "test result: ok" in o
 meta["ran"]["existing suite with change (cargo test --workspace --offline)"] = "green" if suite_ok else "NOT GREEN: " + out[-400:]
 demos = [f for f in glob.glob(src + "/*.rs")]
 demo_cmds = []
-if os.path.exists(os.path.join(src, "run.sh")):
-    demos = []
-    demo_cmds.append(("run.sh", f"sh {src}/run.sh 2>&1 | tail -25"))
+for shname in ("run.sh", "run_demo.sh"):
+    if os.path.exists(os.path.join(src, shname)):
+        demos = []
+        demo_cmds.append((shname, f"sh {src}/{shname} 2>&1 | tail -25"))
 for d in demos:
     stem = os.path.splitext(os.path.basename(d))[0]
     os.makedirs(os.path.join(wt, "cglue", "tests"), exist_ok=True)
@@ -52,6 +53,8 @@ os.makedirs(dst, exist_ok=True)
 for f in os.listdir(src):
     if os.path.isfile(os.path.join(src, f)):
         shutil.copy(os.path.join(src, f), dst)
+    elif f != "target":
+        shutil.copytree(os.path.join(src, f), os.path.join(dst, f), dirs_exist_ok=True, ignore=shutil.ignore_patterns("target", "Cargo.lock"))
 print(json.dumps(meta["ran"], indent=1), "confirmed:", meta["confirmed"])
 if meta["confirmed"] or os.environ.get("SEED_FORCE"):
     r = subprocess.run(["python3", "/verif/lib/seedtest.py", dst] + props, text=True, capture_output=True)
